@@ -3,6 +3,8 @@ import ObiVerif.Model.WriteDev
 import ObiVerif.Model.WriteProc
 import ObiVerif.Model.WriteKind
 import ObiVerif.Model.WritePgzip
+import ObiVerif.Model.WriteReg
+import ObiVerif.Model.WriteOpen
 import ObiVerif.Driver.Util
 /-! line protocol for C18
 
@@ -20,7 +22,9 @@ import ObiVerif.Driver.Util
   fault offset `k`; result: numbers of fatal / ok runs, sum of the bytes held by the sink, first offset that is ok, and
   (uncompressed) the sum of the indexes of the first call returning the error
 * `cmd <command> <scenario> …` a real command in a subprocess; `nofault…` scenarios must exit 0, all the others
-  non-zero (process model with one failing writer)
+  non-zero (process model with one failing writer); scenarios containing `dyn-`: the failing output is written by a
+  goroutine that registers its pipe itself under a cover taken by `main` (`Model/WriteReg.lean`): the dynamic model is
+  run under two schedules (launcher after `main` started waiting / after the static writer has finished)
 -/
 namespace ObiVerif.Driver.C18
 open ObiVerif.WriteErr ObiVerif.WriteProc ObiVerif.Driver
@@ -49,7 +53,7 @@ def one (w : String) (gz k cf zlen own : Nat) (arr : List (Nat × Bytes)) : Opti
     -- error visibility schedule: every other check sees a pushed error (any schedule gives the same result)
     let rep : Nat → Bool := fun i => i % 2 = 1
     -- the transcribed pgzip writer (`Model/WritePgzip.lean`) under some schedule of its listener goroutine: equal to
-    -- the abstract one (`Props/C18P.lean`, `pz_raw_refines_gz`); both are run and compared
+    -- the abstract one (`Props/C18P.lean`, `pz_refines_gz_raw` / `pz_refines_gz_json`); both are run and compared
     let sch : Sched := ⟨fun i => (i + k) % 3, fun i => i % 2 = 0⟩
     let same (r r' : Outcome × Bytes) : Option (Outcome × Bytes) :=
       if r.1 == r'.1 && r.2.length == r'.2.length then some r else none
@@ -183,9 +187,22 @@ def runMulti (w : String) (gz own : Nat) (files : List (List String)) : String :
 def run (line : String) : String :=
   match words line with
   | "cmd" :: _ :: sc :: _ =>
+    -- the verdict of the failing output: `Model/WriteOpen.lean` (it cannot be opened: missing / read-only directory, a
+    -- directory or a file in the way; or it is opened, in append mode or not, and the device takes no byte)
+    let openFails := ["nodir", "notdir", "sysdir", "rodir", "isdir", "distribute-nodir", "distribute-isdir", "dyn-nodir"].contains sc
+    let nofault := sc.startsWith "nofault"
+    let slot : Slot := ⟨!openFails, none, if nofault then 1000000000 else 0, false⟩
+    let bad := (withOpen (sc.endsWith "append") slot fun room _ => if room = 0 then (.fatal, []) else (.ok, [])).1 == .fatal
+    if (sc.splitOn "dyn-").length > 1 then
+      -- first output static and complete, second output covered, registered by its launcher goroutine
+      let ks : List (Kind × Bool) := [(.static, false), (.covered, bad)]
+      match exitD ks (canonD 2), exitD ks (lateD 2) with
+      | some 0, some 0 => "exit0"
+      | some 1, some 1 => "exit-nonzero"
+      | _, _ => "no-exit"
+    else
     -- a command one of whose outputs cannot be written completely must fail
-    let fails := [!(sc.startsWith "nofault")]
-    match exitOf fails (canon 1) with
+    match exitOf [bad] (canon 1) with
     | some 0 => "exit0"
     | some _ => "exit-nonzero"
     | none => "no-exit"
